@@ -603,11 +603,16 @@ def run(tier, seed, work, repo, suspects=None):
     for x in allds:
         x['info'] = infos.get(x['id'], {'err': 'no info'})
         x['text'] = D.to_text(x['def'])
-    def build_unit(name, ds, feature):
+    def build_unit(name, ds, feature, target=None):
+        """builds one harness crate; the binary is copied to bin<name> (units of one crate share the
+        crate's target directory, so the dependencies are compiled once)"""
         mods = [(x['mod'], T.module_code(x['mod'], x['def'], x['text'], x['info'])) for x in ds]
         cdir = os.path.join(root, f'crate{name}')
         T.write_crate(cdir, mods, repo, feature)
-        ok, err = T.build_crate(cdir, os.path.join(root, f'target{name}'))
+        tdir = os.path.join(root, f'target{target or name}')
+        ok, err = T.build_crate(cdir, tdir)
+        if ok:
+            shutil.copy(os.path.join(tdir, 'debug', 't3crate'), os.path.join(root, f'bin{name}'))
         return ok, err
     def build(ci):
         ds = [x for x in crates[ci] if 'err' not in x['info']]
@@ -622,11 +627,11 @@ def run(tier, seed, work, repo, suspects=None):
         for x in ds:
             groups.setdefault(x.get('twin_of') or x['id'], []).append(x)
         for gid, g in groups.items():
-            ok1, err1 = build_unit(f'{ci}_{g[0]["mod"]}', g, feature)
+            ok1, err1 = build_unit(f'{ci}_{g[0]["mod"]}', g, feature, target=str(ci))
             if not ok1 and len(g) > 1:
                 # a twin that does not build must not hide its base
                 base = [x for x in g if not x.get('twin_of')]
-                ok1, err1 = build_unit(f'{ci}_{g[0]["mod"]}', base, feature)
+                ok1, err1 = build_unit(f'{ci}_{g[0]["mod"]}', base, feature, target=str(ci))
                 g = base
             units.append((f'{ci}_{g[0]["mod"]}', g, None if ok1 else err1))
         return units
@@ -679,7 +684,7 @@ def run(tier, seed, work, repo, suspects=None):
                 fams.append(('abandon', ops))
             for k, (fam, ops) in enumerate(fams):
                 scns.append({'sid': f"{x['id']}.{fam}{k}", 'family': fam, 'x': x, 'ops': ops})
-        binary = os.path.join(root, f'target{uname}', 'debug', 't3crate')
+        binary = os.path.join(root, f'bin{uname}')
         # the same scenarios on the twins: sync twin of an async machine (C15), renamed twin (C18)
         twin_scns = []
         for t in uds:
@@ -756,7 +761,6 @@ def run(tier, seed, work, repo, suspects=None):
                     'twin_prefix': D.to_prefix(ts['twin']['def']),
                     'twin_inv': ts['twin'].get('inv'),
                     'twin_observed': b[k] if k < len(b) else '<missing>'})
-        shutil.rmtree(os.path.join(root, f'target{uname}'), ignore_errors=True)
     shutil.rmtree(root, ignore_errors=True)
     # a C01 failure on a definition that uses superstates is a C07 failure too (the relation the machine
     # follows is not the one the hierarchy declares)
